@@ -8,6 +8,7 @@ Line protocol of the C18 model driver (core-only).  One op per line, tokens sepa
   size <schema J> ; <point J>     -> err | <n>   (v2 insert: CheckCompatibleMap, ExtractIdField, len(msgpack.Marshal))
   qry <str path> ; <J>            -> err | none | <J>                        (msgpack Decoder.Query, first value)
   page <off> <lim> <n>            -> <lo> <hi>   (GENERATED paging arithmetic of Shard.SearchPoints, signed decimal)
+  pagecount <off> <lim> <n>       -> hi - lo     (number of points a single-shard search returns)
 
 J tokens (prefix notation):  n   T   F   #<kind>:<int>   s<hex>   [<n> v1 .. vn   {<n> k1 v1 .. kn vn
   kinds f64 f32 i8 i16 i32 i64 u8 u16 u32 u64; floats carry the binary64 bit pattern (f32 widened) as a
@@ -284,6 +285,12 @@ def step (line : String) : String :=
     | some off, some lim, some n =>
       let o := BitVec.ofInt 64 off; let l := BitVec.ofInt 64 lim; let m := BitVec.ofInt 64 n
       showSigned (Gen.FactsC18.sliceLo o l m) ++ " " ++ showSigned (Gen.FactsC18.sliceHi o l m)
+    | _, _, _ => "bad-op"
+  | ["pagecount", a, b, c] =>
+    match a.toInt?, b.toInt?, c.toInt? with
+    | some off, some lim, some n =>
+      let o := BitVec.ofInt 64 off; let l := BitVec.ofInt 64 lim; let m := BitVec.ofInt 64 n
+      toString ((Gen.FactsC18.sliceHi o l m).toInt - (Gen.FactsC18.sliceLo o l m).toInt)
     | _, _, _ => "bad-op"
   | _ => "bad-op"
 
